@@ -203,6 +203,25 @@ def run(ctx):
         except Raised as e:
             oku, rows_u = False, f"raises {e.exc_name}"
         r2.check(oku, f"md_to_dict:cell containing {ch_name}", "the character stays inside its cell; the table keeps its rows", mt.loc(), why_fail=repr(rows_u)[:200])
+    # '#' is a comment only at the start of a line or after the last cell: a cell whose text begins with (or contains) '#'
+    # is cell text
+    for cell_text in ("# of children", "#hashtag", "room #3", "a # b", "#"):
+        it.reset([])
+        mdh = f"| survey |\n| | type | name | label | hint |\n| | integer | n | {cell_text} | after |\n"
+        try:
+            sth = it.call_function(mt, [mdh], {}, None, mt.node)
+            rowh = (sth.get("survey") or [None, None])[1] if isinstance(sth, dict) else None
+        except Raised as e:
+            rowh = f"raises {e.exc_name}"
+        r2.check(isinstance(rowh, tuple) and [c for c in rowh] == ["integer", "n", cell_text, "after"], f"md_to_dict:cell text {cell_text!r}", "a '#' inside a cell is cell text; the cells to its right are kept", mt.loc(),
+                 why_fail=repr(rowh))
+    it.reset([])
+    try:
+        stc = it.call_function(mt, ["# a comment line\n| survey |\n| | type | name | # trailing comment\n| | text | q |\n"], {}, None, mt.node)
+        okc_ = isinstance(stc, dict) and stc.get("survey") == [("type", "name"), ("text", "q")]
+    except Raised as e:
+        okc_, stc = False, f"raises {e.exc_name}"
+    r2.check(okc_, "md_to_dict:comments", "a line starting with '#' and text after the last cell are comments", mt.loc(), why_fail=repr(stc)[:200])
     it.reset([])
     md = "| survey |\n| | type | name |\n| | text | q1 |\n| | | |\n| | text | q2 |\n"
     st = it.call_function(mt, [md], {}, None, mt.node)
@@ -327,60 +346,71 @@ def run(ctx):
     for m in sorted(members):
         if m in cover:
             r4.check(cover[m] in tested, f"convert() input kind {m}", f"is dispatched on (isinstance … {cover[m]})", gdd.loc(), why_fail=f"tested: {sorted(tested)}")
-    # evaluate the normalisation chain on abstract inputs
-    BIO = ExtVal("io.BytesIO")
-    IOObj = type("IOObj", (), {})
-    def mk(kind):
-        if kind == "bytes":
-            return b"abc"
-        if kind == "BytesIO":
-            return Sym("BYTESIO", truthy=True, pytype=IOObj, tags=("BytesIO", "IOBase"), attrs={"read": lambda i, a, k, n: Sym("READ_BYTES", truthy=True, pytype=bytes)})
-        if kind == "file":
-            return Sym("FILE", truthy=True, pytype=IOObj, tags=("IOBase", "BufferedReader"), attrs={"read": lambda i, a, k, n: Sym("READ_BYTES", truthy=True, pytype=bytes)})
-        if kind == "text":
-            return "| survey |\n"
-    created = []
-    def h_bytesio(i, a, k, n):
-        s = Sym(f"BytesIO({a[0]!r})", truthy=True, pytype=IOObj, tags=("BytesIO", "IOBase"),
-                attrs={"src": a[0], "read": lambda i2, a2, k2, n2: Sym("READ_BYTES", truthy=True, pytype=bytes)})
-        created.append(s)
-        return s
-    path_obj = lambda exists: Sym("PATH", truthy=True, pytype=IOObj, attrs={"is_file": lambda i, a, k, n: exists, "stem": "stemname", "suffix": ".xlsx",
-                                                                "read_bytes": lambda i, a, k, n: Sym("FILE_BYTES", truthy=True, pytype=bytes)})
-    for kind, exists in (("bytes", False), ("BytesIO", False), ("file", False), ("text", False), ("text", True)):
-        it = ctx.interp("C12.R4", hooks={"ext:io.BytesIO": h_bytesio, "ext:pathlib.Path": lambda i, a, k, n, e=exists: path_obj(e),
-                                        "new:Definition": lambda i, a, k, n: dict(k), "new:SupportedFileTypes": lambda i, a, k, n: Sym("FT", truthy=True)})
+    # the file is read anew on every conversion: nothing on the read path is memoised (a file replaced under the same
+    # name - even with the same modification time - is a different input)
+    from ..callgraph import CallGraph as _CG
+    read_reach = _CG(repo, ctx.consts.interp).reachable(["pyxform.xls2json_backends:get_definition_data"])
+    memo_bad = [f for f in repo.all_functions() if f.fq in read_reach and any("cache" in norm(d_) for d_ in f.node.decorator_list)]
+    r4.check(not memo_bad, "get_definition_data:no memoised read", "no function on the file-reading path is memoised", gdd.loc(),
+             why_fail=f"memoised: {[f.qualname for f in memo_bad]} - a later conversion of the same path can be handed the earlier file's bytes")
+
+    def _evaluate_gdd():
+        # evaluate the normalisation chain on abstract inputs
+        BIO = ExtVal("io.BytesIO")
+        IOObj = type("IOObj", (), {})
+        def mk(kind):
+            if kind == "bytes":
+                return b"abc"
+            if kind == "BytesIO":
+                return Sym("BYTESIO", truthy=True, pytype=IOObj, tags=("BytesIO", "IOBase"), attrs={"read": lambda i, a, k, n: Sym("READ_BYTES", truthy=True, pytype=bytes)})
+            if kind == "file":
+                return Sym("FILE", truthy=True, pytype=IOObj, tags=("IOBase", "BufferedReader"), attrs={"read": lambda i, a, k, n: Sym("READ_BYTES", truthy=True, pytype=bytes)})
+            if kind == "text":
+                return "| survey |\n"
+        created = []
+        def h_bytesio(i, a, k, n):
+            s = Sym(f"BytesIO({a[0]!r})", truthy=True, pytype=IOObj, tags=("BytesIO", "IOBase"),
+                    attrs={"src": a[0], "read": lambda i2, a2, k2, n2: Sym("READ_BYTES", truthy=True, pytype=bytes)})
+            created.append(s)
+            return s
+        path_obj = lambda exists: Sym("PATH", truthy=True, pytype=IOObj, attrs={"is_file": lambda i, a, k, n: exists, "stem": "stemname", "suffix": ".xlsx",
+                                                                    "read_bytes": lambda i, a, k, n: Sym("FILE_BYTES", truthy=True, pytype=bytes)})
+        for kind, exists in (("bytes", False), ("BytesIO", False), ("file", False), ("text", False), ("text", True)):
+            it = ctx.interp("C12.R4", hooks={"ext:io.BytesIO": h_bytesio, "ext:pathlib.Path": lambda i, a, k, n, e=exists: path_obj(e),
+                                            "new:Definition": lambda i, a, k, n: dict(k), "new:SupportedFileTypes": lambda i, a, k, n: Sym("FT", truthy=True)})
+            it.reset([])
+            created.clear()
+            inp = mk(kind)
+            try:
+                d = it.call_function(gdd, [], {"definition": inp}, None, gdd.node)
+            except Raised as r:
+                r4.fail(f"get_definition_data[{kind}{', existing path' if exists else ''}]", f"evaluates ({r.exc_name}{r.exc_args})", gdd.loc())
+                continue
+            data = d.get("data") if isinstance(d, dict) else None
+            ok = isinstance(data, Sym) and "BytesIO" in data.tags
+            r4.check(ok, f"get_definition_data[{kind}{', existing path' if exists else ''}]", "data is normalised to a BytesIO", gdd.loc(), why_fail=repr(d))
+            if kind == "BytesIO":
+                r4.check(data is inp, "get_definition_data[BytesIO]:identity", "a BytesIO is used as is", gdd.loc())
+            stem = d.get("file_path_stem") if isinstance(d, dict) else None
+            r4.check((stem == "stemname") == (kind == "text" and exists), f"get_definition_data[{kind}{', existing path' if exists else ''}]:stem",
+                     "the file stem is set only when a file was actually read", gdd.loc(), why_fail=repr(stem))
+        # a file whose suffix is not one of the supported (lower-case) ones is still read and still names the form
+        from ..interp import Raised as _R
+
+        def h_sft(i, a, k, n):
+            raise _R("ValueError", ("not a valid SupportedFileTypes",), n, ("ValueError", "Exception", "BaseException"))
+        it = ctx.interp("C12.R4", hooks={"ext:io.BytesIO": h_bytesio, "ext:pathlib.Path": lambda i, a, k, n: path_obj(True), "new:Definition": lambda i, a, k, n: dict(k), "new:SupportedFileTypes": h_sft})
         it.reset([])
         created.clear()
-        inp = mk(kind)
         try:
-            d = it.call_function(gdd, [], {"definition": inp}, None, gdd.node)
+            d = it.call_function(gdd, [], {"definition": mk("text")}, None, gdd.node)
+            stem = d.get("file_path_stem") if isinstance(d, dict) else None
+            r4.check(stem == "stemname" and isinstance(d.get("data"), Sym), "get_definition_data[existing path, unrecognised suffix]:stem",
+                     "the fallback form name is the file stem whether or not the suffix is a recognised type hint", gdd.loc(), why_fail=repr(d))
         except Raised as r:
-            r4.fail(f"get_definition_data[{kind}{', existing path' if exists else ''}]", f"evaluates ({r.exc_name}{r.exc_args})", gdd.loc())
-            continue
-        data = d.get("data") if isinstance(d, dict) else None
-        ok = isinstance(data, Sym) and "BytesIO" in data.tags
-        r4.check(ok, f"get_definition_data[{kind}{', existing path' if exists else ''}]", "data is normalised to a BytesIO", gdd.loc(), why_fail=repr(d))
-        if kind == "BytesIO":
-            r4.check(data is inp, "get_definition_data[BytesIO]:identity", "a BytesIO is used as is", gdd.loc())
-        stem = d.get("file_path_stem") if isinstance(d, dict) else None
-        r4.check((stem == "stemname") == (kind == "text" and exists), f"get_definition_data[{kind}{', existing path' if exists else ''}]:stem",
-                 "the file stem is set only when a file was actually read", gdd.loc(), why_fail=repr(stem))
-    # a file whose suffix is not one of the supported (lower-case) ones is still read and still names the form
-    from ..interp import Raised as _R
-
-    def h_sft(i, a, k, n):
-        raise _R("ValueError", ("not a valid SupportedFileTypes",), n, ("ValueError", "Exception", "BaseException"))
-    it = ctx.interp("C12.R4", hooks={"ext:io.BytesIO": h_bytesio, "ext:pathlib.Path": lambda i, a, k, n: path_obj(True), "new:Definition": lambda i, a, k, n: dict(k), "new:SupportedFileTypes": h_sft})
-    it.reset([])
-    created.clear()
-    try:
-        d = it.call_function(gdd, [], {"definition": mk("text")}, None, gdd.node)
-        stem = d.get("file_path_stem") if isinstance(d, dict) else None
-        r4.check(stem == "stemname" and isinstance(d.get("data"), Sym), "get_definition_data[existing path, unrecognised suffix]:stem",
-                 "the fallback form name is the file stem whether or not the suffix is a recognised type hint", gdd.loc(), why_fail=repr(d))
-    except Raised as r:
-        r4.fail("get_definition_data[existing path, unrecognised suffix]", f"evaluates ({r.exc_name}{r.exc_args})", gdd.loc())
+            r4.fail("get_definition_data[existing path, unrecognised suffix]", f"evaluates ({r.exc_name}{r.exc_args})", gdd.loc())
+    if not memo_bad:
+        _evaluate_gdd()
     # the dict channel: every field a reader can produce (sheets, their header rows, sheet names, fallback name) is
     # taken over unchanged - the readers hand over the header rows, and so may a caller
     gx = ctx.func("pyxform.xls2json_backends:get_xlsform", "C12.R4")
@@ -403,5 +433,18 @@ def run(ctx):
     lost_x = sorted(k for k in given if not (isinstance(got_x, dict) and got_x.get(k) == given[k]))
     r4.check(not lost_x, "get_xlsform[dict with every DefinitionData field]", "each field of the dict reaches the workbook unchanged (sheets and their *_header rows alike)", gx.loc(),
              why_fail=f"lost or changed: {lost_x}" if isinstance(got_x, dict) else str(got_x))
+    # the file type: the caller's explicit file_type wins; without one, the type recorded for the path's suffix is used
+    for desc, given, recorded, want_ft in (("explicit type, path with another suffix", ".xlsx", ".xls", ".xlsx"), ("explicit type, content without suffix", ".md", None, ".md"),
+                                           ("no explicit type, path with suffix", None, ".csv", ".csv"), ("no explicit type, no suffix", None, None, None)):
+        seen_ft = {}
+        itf = ctx.interp("C12.R4", hooks={"fnname:get_definition_data": lambda i, a, k, n, recorded=recorded: Obj(None, {"file_type": recorded, "data": "DATA", "file_path_stem": "stem"}, name="definition"),
+                                          "fnname:definition_to_dict": lambda i, a, k, n, seen_ft=seen_ft: (seen_ft.update(ft=k.get("file_type", a[1] if len(a) > 1 else None)), "WB")[1]})
+        itf.reset([])
+        try:
+            itf.call_function(gx, [], {"xlsform": "some/path", "file_type": given}, None, gx.node)
+            got_ft = seen_ft.get("ft", "<reader not called>")
+        except Raised as e:
+            got_ft = f"raises {e.exc_name}"
+        r4.check(got_ft == want_ft, f"get_xlsform[{desc}]", f"the readers are tried with file type {want_ft!r}", gx.loc(), why_fail=f"got {got_ft!r}")
     rules.append(r4)
     return rules
